@@ -44,6 +44,23 @@ CHECKS = {
              'switches observed inside asn1tools and distinct interleaving signatures are reported.',
         note='Operations are pure functions of their arguments, so per-operation equality is the linearizability condition; CPython GIL '
              'scheduling limits which interleavings are reachable.'),
+    'C13': dict(
+        category='exploration', design_ref='DESIGN.md 4 C13',
+        technique='runtime monitoring: metamorphic oracle (n-th compile of a mutated-in-place dictionary vs fresh parse) over recorded compile histories, plus a plain-data invariant walk',
+        text='Random histories of up to 6 compile_dict / pformat-eval / deepcopy steps over all 8 codecs and numeric_enums are executed on one parsed '
+             'dictionary; the codec object produced last is compared, on a battery of valid and corrupted probe values, with compile_string of the '
+             'original text. All 256 ordered (codec, option) pairs are covered per quick run. An invariant monitor walks the parse output for '
+             'non-plain objects and checks pformat/eval reproduction.',
+        note='Behaviour = bytes, decoded reprs, error class+text on the probe battery; trusts the generator.'),
+    'C17': dict(
+        category='fault_enumeration', design_ref='DESIGN.md 4 C17',
+        technique='fault injection: strace SIGKILL injection at every write-side syscall of a cache population, file damage, and call histories, each followed by a cached-vs-uncached behavioural comparison',
+        text='Every k-th pwrite64/fdatasync/ftruncate/unlink/mkdir issued while a child process populates the cache (first population, second key, '
+             're-population after a file change) is turned into a SIGKILL by strace; a reader then compiles with the same directory and must '
+             'behave like the uncached compile or raise. Plus histories of compile_files calls varying files/codec/options over one directory, '
+             'and truncation / bit-flip / zeroed-page damage of the cache files.',
+        note='Crash model = every prefix of the writer syscall sequence (page cache survives SIGKILL), not torn writes or power loss; '
+             'behaviour compared on a probe battery from my AST.'),
 }
 
 NOT_YET = 'check under construction in this revision (DESIGN.md section 4); not claimed yet'
